@@ -193,7 +193,7 @@ func extractEffects(fx *Facts, fn *ssa.Function, targetOK func(*Term) bool, lab 
 					}
 				}
 				if bi, ok := com.Value.(*ssa.Builtin); ok && bi.Name() == "delete" && len(com.Args) == 2 {
-					tgt := termOf(com.Args[0])
+					tgt := mapAliasTerm(com.Args[0])
 					if targetOK(tgt) {
 						emit(in, tgt, mk("const", "key"), "del", "delete")
 					}
@@ -258,7 +258,7 @@ func extractEffects(fx *Facts, fn *ssa.Function, targetOK func(*Term) bool, lab 
 				op, am := arithOn(x.Val, tgt)
 				emit(in, tgt, am, op, "store")
 			case *ssa.MapUpdate:
-				m := termOf(x.Map)
+				m := mapAliasTerm(x.Map)
 				loc := mk("lookup", "", m, termOf(x.Key))
 				if !targetOK(loc) && !targetOK(m) {
 					continue
@@ -461,4 +461,97 @@ func dualCheckArm(es []Effect, hasTwin func(base *Term, field string) bool) (int
 		}
 	}
 	return pairs, bad
+}
+
+// hasEffectUnder: some effect on the target applies whenever the status assumption `arm` holds — its own guard
+// (a conjunction of arm literals) is implied by `arm`. "Status==x" implies "!Status==y" for every y ≠ x. This makes
+// the arm table independent of whether the code spells the arms as a switch, an if / else-if chain or nested ifs.
+func hasEffectUnder(es []Effect, arm string, targetSuffix, op string) bool {
+	if arm == "" {
+		return hasEffect(es, arm, targetSuffix, op)
+	}
+	have := map[string]bool{}
+	posStatus := ""
+	for _, l := range strings.Split(arm, " & ") {
+		have[l] = true
+		if strings.HasPrefix(l, "Status==") {
+			posStatus = l
+		}
+	}
+	implied := func(l string) bool {
+		if have[l] {
+			return true
+		}
+		if strings.HasPrefix(l, "!Status==") && posStatus != "" && "!"+posStatus != l {
+			return true
+		}
+		return false
+	}
+	for _, e := range es {
+		if !strings.HasSuffix(e.Target, targetSuffix) || e.Op != op {
+			continue
+		}
+		if e.Arm == "⊥" {
+			continue
+		}
+		ok := true
+		if e.Arm != "" {
+			for _, l := range strings.Split(e.Arm, " & ") {
+				if !implied(l) {
+					ok = false
+				}
+			}
+		}
+		if ok {
+			return true
+		}
+	}
+	return false
+}
+
+// mapAliasTerm: the term of a map operand, seeing through the get-or-create idiom
+//
+//	inner, found := outer[k]; if !found { inner = fresh; outer[k] = inner }; inner[x] = v
+//
+// where the operand is a φ of the looked-up inner map and a fresh map that is stored under the same key on its
+// path: the operand then IS outer[k].
+func mapAliasTerm(v ssa.Value) *Term {
+	phi, ok := v.(*ssa.Phi)
+	if !ok {
+		return termOf(v)
+	}
+	var slot *Term
+	var fresh []ssa.Value
+	for _, leaf := range phiLeaves(phi) {
+		src := leaf
+		if ex, isEx := leaf.(*ssa.Extract); isEx && ex.Index == 0 {
+			src = ex.Tuple
+		}
+		if lk, isLk := src.(*ssa.Lookup); isLk {
+			t := mk("lookup", "", termOf(lk.X), termOf(lk.Index))
+			if slot != nil && canon(slot) != canon(t) {
+				return termOf(v)
+			}
+			slot = t
+			continue
+		}
+		fresh = append(fresh, leaf)
+	}
+	if slot == nil {
+		return termOf(v)
+	}
+	for _, w := range fresh {
+		stored := false
+		for _, b := range phi.Parent().Blocks {
+			for _, in := range b.Instrs {
+				if mu, isMU := in.(*ssa.MapUpdate); isMU && mu.Value == w && canon(mk("lookup", "", termOf(mu.Map), termOf(mu.Key))) == canon(slot) {
+					stored = true
+				}
+			}
+		}
+		if !stored {
+			return termOf(v)
+		}
+	}
+	return slot
 }
